@@ -136,7 +136,7 @@ pub fn split_texts(args: &Args, rng: &mut Rng, tr: &mut Shards) -> usize {
         RFmt { delim: b'|', quote: b'"', esc: Some(b'\\'), term: Some(b'\n') },
         RFmt { delim: b',', quote: b'"', esc: None, term: Some(b'\r') },
     ];
-    for _ in 0..args.scale(1500, 30000) {
+    for _ in 0..args.scale(1000, 24000) {
         let f = rng.pick(&fmts).clone();
         let ncols = 1 + rng.below(3);
         let mut units: Vec<String> = vec![
@@ -407,7 +407,7 @@ pub fn round_trips(args: &Args, rng: &mut Rng, tr: &mut Shards) -> (usize, usize
     let types = csv_types();
     let mut n = 0;
     let mut skipped = 0;
-    for case in 0..args.scale(1400, 24000) {
+    for case in 0..args.scale(900, 16000) {
         let w = WFmt {
             delim: *rng.pick(&[b',', b',', b';', b'\t', b'|']),
             quote: *rng.pick(&[b'"', b'"', b'\'']),
@@ -514,18 +514,19 @@ pub fn round_trips(args: &Args, rng: &mut Rng, tr: &mut Shards) -> (usize, usize
         // typed read-back
         let bs = *rng.pick(&[1usize, 2, 1024]);
         let back = guarded(|| {
-            let rd = reader_for(&w, schema.clone(), bs).build(Cursor::new(text.clone())).map_err(|e| format!("open:{}", variant(&e)))?;
+            let rd = reader_for(&w, schema.clone(), bs).build(Cursor::new(text.clone())).map_err(|e| (format!("open:{}", variant(&e)), e.to_string()))?;
             let mut rows = vec![];
             let sch = norm_schema(&rd.schema());
             for b in rd {
-                let b = b.map_err(|e| format!("read:{}", variant(&e)))?;
+                let b = b.map_err(|e| (format!("read:{}", variant(&e)), e.to_string()))?;
                 rows.extend(tok::batch_rows(&b));
             }
-            Ok::<_, String>((rows, sch))
+            Ok::<_, (String, String)>((rows, sch))
         });
+        // a type the writer formats but the reader has no parser for ("Unsupported data type ..."): not judged
         let (outcome, rows_out, schema_out, unsupported) = match back {
             Ok(Ok((r, s))) => ("ok".to_string(), r, s, false),
-            Ok(Err(e)) => (format!("err:{e}"), vec![], String::new(), e.ends_with("ParseError") && unsupported_by_reader(&schema)),
+            Ok(Err((e, msg))) => (format!("err:{e}"), vec![], String::new(), msg.contains("Unsupported data type") || msg.contains("Unsupported dictionary")),
             Err(p) => (format!("panic:{}", safe(&p.chars().take(60).collect::<String>())), vec![], String::new(), false),
         };
         // all-Utf8 read-back of the same text (header row read as data, no null conversion)
@@ -555,7 +556,3 @@ pub fn round_trips(args: &Args, rng: &mut Rng, tr: &mut Shards) -> (usize, usize
     (n, skipped)
 }
 
-/// types the writer formats but the reader has no parser for ("Unsupported data type"): skipped, not judged
-fn unsupported_by_reader(s: &Schema) -> bool {
-    s.fields().iter().any(|f| matches!(f.data_type(), DataType::Binary | DataType::LargeUtf8 | DataType::Duration(_) | DataType::Dictionary(_, _)) && !matches!(f.data_type(), DataType::Dictionary(_, v) if **v == DataType::Utf8))
-}
